@@ -63,3 +63,28 @@ Definition dict_setdefault_update {K V} (eqb : K -> K -> bool) (k : K) (s : list
   | None => d ++ [(k, s)]
   | Some old => aset eqb k (old ++ s) d
   end.
+
+(* round 4, LinSpaceBuilder:
+     range(start, stop, step)                       grange = (start, stop, step); rng.start / rng.step / len(rng) = range_start /
+                                                    range_step / range_length (Model.range_len; step <> 0: range() itself raises otherwise)
+     x = l.pop()                                    pop_last_v l = Some (rest, x)     None -> IndexError
+     ll[-1].append(x)                               stack_top_append x ll             None -> IndexError (empty outer list) *)
+Definition grange := (Z * Z * Z)%type.
+Definition range_start (r : grange) : Z := fst (fst r).
+Definition range_stop (r : grange) : Z := snd (fst r).
+Definition range_step (r : grange) : Z := snd r.
+Definition range_length (r : grange) : Z := range_len (range_start r) (range_stop r) (range_step r).
+
+Fixpoint pop_last_v {A} (l : list A) : option (list A * A) :=
+  match l with
+  | [] => None
+  | [x] => Some ([], x)
+  | x :: r => match pop_last_v r with Some (r', y) => Some (x :: r', y) | None => None end
+  end.
+
+Fixpoint stack_top_append {A} (x : A) (ll : list (list A)) : option (list (list A)) :=
+  match ll with
+  | [] => None
+  | [top] => Some [top ++ [x]]
+  | f :: r => match stack_top_append x r with Some r' => Some (f :: r') | None => None end
+  end.
